@@ -23,7 +23,7 @@ PROP = {
     'level_text': 'Grammar-based generation of well-formed AML with the expected namespace known by construction; the parser output is compared two-sidedly with that model. Exploration of the supported grammar subset; classes that are recorded findings are constructed around and counted.',
     'level_note': 'Trusts the harness encoder and the by-construction scoping model; method-body statement nesting (If/While bodies) is not asserted, only invocations and the objects a body declares (found by walking through If/Else/While nodes, which open no scope).',
     'assumptions': ['operands of OperationRegion are constants; Name data are constants, strings, buffers with constant size, packages',
-                    'names are globally unique per program (lookup rules under shadowing are decided by C13)',
+                    'names are unique per program, except that a method may carry the name of a method of an enclosing scope (a simple name then designates the innermost one declared by the same or an earlier table); lookup rules in general are decided by C13',
                     'package elements may name other objects (bound to exactly that object); elements that name a method are not generated: AML cannot tell a reference from an invocation there',
                     'Scope directives and path prefixes refer to objects declared earlier (same or earlier table); method calls may be forward within a table'],
 }
